@@ -1,4 +1,437 @@
+//! C09 — URL-encoded serialization round trip and percent-decoding (spec: specs/UrlEnc.tla).
+//!
+//! The harness only (1) concretises the abstract scenario (class tokens -> code points, "#symbols" -> boundary
+//! numbers / variants, spellings -> raw or %XX bytes), (2) runs the REAL `ohkami_lib::serde_urlencoded::{to_string,
+//! from_bytes}` / a real `Request` (`query.parse`, `query.iter`), (3) projects typed values onto canonical strings
+//! (as code-point arrays).  Every comparison is made by TLC in specs/Trace_UrlEnc.tla.
+use crate::util::{self, Rng};
+use ohkami_lib::serde_urlencoded;
+use serde::{de::DeserializeOwned, Deserialize, Serialize};
 use serde_json::{json, Value};
-pub fn run(_scn: &Value) -> Value { json!({"kind": "unimplemented"}) }
-#[allow(dead_code)]
-pub fn gen(_rng: &mut crate::util::Rng, i: usize) -> Value { json!({"id": i}) }
+use std::collections::BTreeMap;
+
+// ------------------------------------------------------------------ concretisation table (trusted base)
+pub fn reps(class: &str) -> &'static [char] {
+    match class {
+        "al" => &['a', 'Z', '7', 'k', 'Q', '0'],
+        "sp" => &[' '],
+        "amp" => &['&'],
+        "eq" => &['='],
+        "pct" => &['%'],
+        "plus" => &['+'],
+        "comma" => &[','],
+        "slash" => &['/'],
+        "unres" => &['-', '.', '_', '~'],
+        "res" => &['!', '$', '\'', '(', ')', '*', ':', ';', '?', '@'],
+        "punct" => &['"', '#', '<', '>', '[', '\\', ']', '^', '`', '{', '|', '}'],
+        "ctl" => &['\t', '\n', '\r', '\u{1}', '\u{7f}', '\u{1f}'],
+        "nul" => &['\0'],
+        "u2" => &['é', 'ß', 'Ω', '\u{80}', '\u{7ff}'],
+        "u3" => &['狼', '€', '\u{800}', '\u{ffff}', '\u{d7ff}', '\u{e000}', '\u{fffd}'],
+        "u4" => &['😀', '\u{10000}', '\u{10ffff}', '𝄞'],
+        _ => &[],
+    }
+}
+pub const CLASSES: [&str; 16] = ["al", "sp", "amp", "eq", "pct", "plus", "comma", "slash", "unres", "res", "punct", "ctl", "nul", "u2", "u3", "u4"];
+
+pub struct Cz { seed: u64, pos: u64 }
+impl Cz {
+    pub fn new(scn: &Value) -> Self {
+        let id = scn.get("id").and_then(|v| v.as_u64()).unwrap_or(0);
+        let seed = scn.get("seed").and_then(|v| v.as_u64()).unwrap_or(0);
+        Cz { seed: id.wrapping_mul(7).wrapping_add(seed.wrapping_mul(13)), pos: 0 }
+    }
+    /// representative of a class: consecutive positions of one scenario get different representatives
+    pub fn pick(&mut self, class: &str) -> Result<char, String> { self.pick_in(class, reps(class)) }
+    pub fn pick_in(&mut self, class: &str, r: &[char]) -> Result<char, String> {
+        if r.is_empty() { return Err(format!("unknown class token {class:?}")) }
+        let c = r[((self.seed + self.pos) % r.len() as u64) as usize];
+        self.pos += 1;
+        Ok(c)
+    }
+}
+
+pub fn cps(s: &str) -> Value { Value::Array(s.chars().map(|c| json!(c as u32)).collect()) }
+pub fn bytes_json(b: &[u8]) -> Value { Value::Array(b.iter().map(|x| json!(*x)).collect()) }
+
+fn esc(out: &mut Vec<u8>, c: char, upper: bool) {
+    let mut buf = [0u8; 4];
+    for b in c.encode_utf8(&mut buf).bytes() {
+        out.extend_from_slice(if upper { format!("%{:02X}", b) } else { format!("%{:02x}", b) }.as_bytes());
+    }
+}
+/// spelling of a character sequence: "r" raw, "U" %XX, "L" %xx, "M" alternating (odd positions escaped, upper)
+pub fn spell(out: &mut Vec<u8>, s: &str, e: &str) {
+    for (i, c) in s.chars().enumerate() {
+        let escaped = match e { "r" => false, "U" | "L" => true, "M" => i % 2 == 0, _ => false };
+        if escaped { esc(out, c, e != "L") } else { let mut b = [0u8; 4]; out.extend_from_slice(c.encode_utf8(&mut b).as_bytes()) }
+    }
+}
+
+// ------------------------------------------------------------------ symbols (boundary numbers etc.)
+macro_rules! int_sym { ($t:ty, $s:expr) => {{
+    let s: &str = $s;
+    match s { "0" => Ok(0 as $t), "1" => Ok(1 as $t), "7" => Ok(7 as $t), "min" => Ok(<$t>::MIN), "max" => Ok(<$t>::MAX),
+              _ => s.strip_prefix('=').unwrap_or(s).parse::<$t>().map_err(|_| format!("bad {} symbol {s:?}", stringify!($t))) }
+}}}
+fn f64_sym(s: &str) -> Result<f64, String> {
+    Ok(match s { "0" => 0.0, "-0" => -0.0, "1.5" => 1.5, "-2.5e-3" => -2.5e-3, "max" => f64::MAX, "minpos" => f64::MIN_POSITIVE,
+                 "nan" => f64::NAN, "inf" => f64::INFINITY, "-inf" => f64::NEG_INFINITY,
+                 _ => s.strip_prefix('=').unwrap_or(s).parse::<f64>().map_err(|_| format!("bad f64 symbol {s:?}"))? })
+}
+fn f32_sym(s: &str) -> Result<f32, String> {
+    Ok(match s { "0" => 0.0, "-0" => -0.0, "1.5" => 1.5, "-2.5e-3" => -2.5e-3, "max" => f32::MAX, "minpos" => f32::MIN_POSITIVE,
+                 "nan" => f32::NAN, "inf" => f32::INFINITY, "-inf" => f32::NEG_INFINITY,
+                 _ => s.strip_prefix('=').unwrap_or(s).parse::<f32>().map_err(|_| format!("bad f32 symbol {s:?}"))? })
+}
+/// Display of a float is the shortest text that parses back to the same float: injective on non-NaN values (-0 -> "-0")
+fn pf32(x: f32) -> String { x.to_string() }
+fn pf64(x: f64) -> String { x.to_string() }
+/// literal text of a "kind:sym" symbol used inside wire texts
+pub fn literal(sym: &str) -> Result<String, String> {
+    let (k, s) = sym.split_once(':').ok_or_else(|| format!("bad symbol {sym:?}"))?;
+    Ok(match k {
+        "name" | "lit" | "enum" | "bool" => s.to_string(),
+        "i8" => int_sym!(i8, s)?.to_string(), "i16" => int_sym!(i16, s)?.to_string(), "i32" => int_sym!(i32, s)?.to_string(),
+        "i64" => int_sym!(i64, s)?.to_string(), "isize" => int_sym!(isize, s)?.to_string(),
+        "u8" => int_sym!(u8, s)?.to_string(), "u16" => int_sym!(u16, s)?.to_string(), "u32" => int_sym!(u32, s)?.to_string(),
+        "u64" => int_sym!(u64, s)?.to_string(), "usize" => int_sym!(usize, s)?.to_string(),
+        "f32" => f32_sym(s)?.to_string(), "f64" => f64_sym(s)?.to_string(),
+        _ => return Err(format!("bad symbol kind {sym:?}")),
+    })
+}
+
+// ------------------------------------------------------------------ catalogue of target types (mirrors UrlEnc!Catalogue)
+#[derive(Serialize, Deserialize, Debug, PartialEq)] struct Ints { a: i8, b: i16, c: i32, d: i64, e: u8, f: u16, g: u32, h: u64, i: isize, j: usize }
+#[derive(Serialize, Deserialize, Debug, PartialEq)] struct Floats { x: f32, y: f64 }
+#[derive(Serialize, Deserialize, Debug, PartialEq)] struct Scal { b: bool, s: String, u_n: i32 }
+#[derive(Serialize, Deserialize, Debug, PartialEq)] struct Str1 { s: String }
+#[derive(Serialize, Deserialize, Debug, PartialEq)] struct Str2 { s: String, t: String }
+#[derive(Serialize, Deserialize, Debug, PartialEq)] struct Ch { c: char, z: u8 }
+#[derive(Serialize, Deserialize, Debug, PartialEq)] struct Opt { o: Option<String>, p: Option<u32>, z: u8 }
+#[derive(Serialize, Deserialize, Debug, PartialEq)] struct OptEnd { z: u8, o: Option<String> }
+#[derive(Serialize, Deserialize, Debug, PartialEq, Clone, Copy)] enum Color { A, Bee, #[serde(rename = "dark_red")] DarkRed }
+#[derive(Serialize, Deserialize, Debug, PartialEq)] struct En { e: Color, s: String }
+#[derive(Serialize, Deserialize, Debug, PartialEq)] struct Id(u32);
+#[derive(Serialize, Deserialize, Debug, PartialEq)] struct Name(String);
+#[derive(Serialize, Deserialize, Debug, PartialEq)] struct Nt { id: Id, name: Name }
+#[derive(Serialize, Deserialize, Debug, PartialEq)] struct SeqS { v: Vec<String>, z: u8 }
+#[derive(Serialize, Deserialize, Debug, PartialEq)] struct SeqN { w: Vec<u32> }
+type Map = BTreeMap<String, String>;
+
+/// a concretised field of a round-trip scenario: elements are strings (class tokens made concrete) or "#symbols"
+pub struct FieldIn { pub name: String, pub key: String, pub elems: Vec<String> }
+type Proj = Vec<(String, Vec<String>)>;
+struct In<'a>(&'a [FieldIn]);
+impl In<'_> {
+    fn f(&self, n: &str) -> Result<&FieldIn, String> { self.0.iter().find(|f| f.name == n).ok_or_else(|| format!("scenario lacks field {n}")) }
+    fn one(&self, n: &str) -> Result<&str, String> { let f = self.f(n)?; if f.elems.len() == 1 { Ok(&f.elems[0]) } else { Err(format!("field {n}: expected one element")) } }
+    fn sym(&self, n: &str) -> Result<&str, String> { self.one(n)?.strip_prefix('#').ok_or_else(|| format!("field {n}: expected a #symbol")) }
+    fn string(&self, n: &str) -> Result<String, String> { Ok(self.one(n)?.to_string()) }
+    fn opt(&self, n: &str) -> Result<Option<&str>, String> { let f = self.f(n)?; match f.elems.len() { 0 => Ok(None), 1 => Ok(Some(&f.elems[0])), _ => Err("option with >1 element".into()) } }
+}
+fn color(s: &str) -> Result<Color, String> { match s { "A" => Ok(Color::A), "Bee" => Ok(Color::Bee), "dark_red" => Ok(Color::DarkRed), _ => Err(format!("bad enum symbol {s}")) } }
+fn color_name(c: Color) -> &'static str { match c { Color::A => "A", Color::Bee => "Bee", Color::DarkRed => "dark_red" } }
+
+trait Cat: Serialize + DeserializeOwned {
+    fn build(i: &In) -> Result<Self, String>;
+    fn project(&self) -> Proj;
+}
+fn p1(n: &str, v: String) -> (String, Vec<String>) { (n.to_string(), vec![v]) }
+impl Cat for Ints {
+    fn build(i: &In) -> Result<Self, String> { Ok(Ints { a: int_sym!(i8, i.sym("a")?)?, b: int_sym!(i16, i.sym("b")?)?, c: int_sym!(i32, i.sym("c")?)?, d: int_sym!(i64, i.sym("d")?)?,
+        e: int_sym!(u8, i.sym("e")?)?, f: int_sym!(u16, i.sym("f")?)?, g: int_sym!(u32, i.sym("g")?)?, h: int_sym!(u64, i.sym("h")?)?, i: int_sym!(isize, i.sym("i")?)?, j: int_sym!(usize, i.sym("j")?)? }) }
+    fn project(&self) -> Proj { vec![p1("a", self.a.to_string()), p1("b", self.b.to_string()), p1("c", self.c.to_string()), p1("d", self.d.to_string()), p1("e", self.e.to_string()),
+        p1("f", self.f.to_string()), p1("g", self.g.to_string()), p1("h", self.h.to_string()), p1("i", self.i.to_string()), p1("j", self.j.to_string())] }
+}
+impl Cat for Floats {
+    fn build(i: &In) -> Result<Self, String> { Ok(Floats { x: f32_sym(i.sym("x")?)?, y: f64_sym(i.sym("y")?)? }) }
+    fn project(&self) -> Proj { vec![p1("x", pf32(self.x)), p1("y", pf64(self.y))] }
+}
+impl Cat for Scal {
+    fn build(i: &In) -> Result<Self, String> { Ok(Scal { b: i.sym("b")? == "true", s: i.string("s")?, u_n: int_sym!(i32, i.sym("u_n")?)? }) }
+    fn project(&self) -> Proj { vec![p1("b", self.b.to_string()), p1("s", self.s.clone()), p1("u_n", self.u_n.to_string())] }
+}
+impl Cat for Str1 {
+    fn build(i: &In) -> Result<Self, String> { Ok(Str1 { s: i.string("s")? }) }
+    fn project(&self) -> Proj { vec![p1("s", self.s.clone())] }
+}
+impl Cat for Str2 {
+    fn build(i: &In) -> Result<Self, String> { Ok(Str2 { s: i.string("s")?, t: i.string("t")? }) }
+    fn project(&self) -> Proj { vec![p1("s", self.s.clone()), p1("t", self.t.clone())] }
+}
+fn one_char(s: &str) -> Result<char, String> { let mut c = s.chars(); match (c.next(), c.next()) { (Some(x), None) => Ok(x), _ => Err(format!("char field needs exactly one token, got {s:?}")) } }
+impl Cat for Ch {
+    fn build(i: &In) -> Result<Self, String> { Ok(Ch { c: one_char(i.one("c")?)?, z: int_sym!(u8, i.sym("z")?)? }) }
+    fn project(&self) -> Proj { vec![p1("c", self.c.to_string()), p1("z", self.z.to_string())] }
+}
+fn popt<T: ToString>(n: &str, o: &Option<T>) -> (String, Vec<String>) { (n.to_string(), o.iter().map(|x| x.to_string()).collect()) }
+impl Cat for Opt {
+    fn build(i: &In) -> Result<Self, String> {
+        let p = match i.opt("p")? { None => None, Some(s) => Some(int_sym!(u32, s.strip_prefix('#').unwrap_or(s))?) };
+        Ok(Opt { o: i.opt("o")?.map(|s| s.to_string()), p, z: int_sym!(u8, i.sym("z")?)? })
+    }
+    fn project(&self) -> Proj { vec![popt("o", &self.o), popt("p", &self.p), p1("z", self.z.to_string())] }
+}
+impl Cat for OptEnd {
+    fn build(i: &In) -> Result<Self, String> { Ok(OptEnd { z: int_sym!(u8, i.sym("z")?)?, o: i.opt("o")?.map(|s| s.to_string()) }) }
+    fn project(&self) -> Proj { vec![p1("z", self.z.to_string()), popt("o", &self.o)] }
+}
+impl Cat for En {
+    fn build(i: &In) -> Result<Self, String> { Ok(En { e: color(i.sym("e")?)?, s: i.string("s")? }) }
+    fn project(&self) -> Proj { vec![p1("e", color_name(self.e).to_string()), p1("s", self.s.clone())] }
+}
+impl Cat for Nt {
+    fn build(i: &In) -> Result<Self, String> { Ok(Nt { id: Id(int_sym!(u32, i.sym("id")?)?), name: Name(i.string("name")?) }) }
+    fn project(&self) -> Proj { vec![p1("id", self.id.0.to_string()), p1("name", self.name.0.clone())] }
+}
+impl Cat for SeqS {
+    fn build(i: &In) -> Result<Self, String> { Ok(SeqS { v: i.f("v")?.elems.clone(), z: int_sym!(u8, i.sym("z")?)? }) }
+    fn project(&self) -> Proj { vec![("v".into(), self.v.clone()), p1("z", self.z.to_string())] }
+}
+impl Cat for SeqN {
+    fn build(i: &In) -> Result<Self, String> {
+        let mut w = vec![]; for e in &i.f("w")?.elems { w.push(int_sym!(u32, e.strip_prefix('#').unwrap_or(e))?) }
+        Ok(SeqN { w })
+    }
+    fn project(&self) -> Proj { vec![("w".into(), self.w.iter().map(|x| x.to_string()).collect())] }
+}
+impl Cat for Map {
+    fn build(i: &In) -> Result<Self, String> {
+        let mut m = Map::new();
+        for f in i.0 { if m.insert(f.key.clone(), f.elems.first().cloned().unwrap_or_default()).is_some() { return Err("dup".into()) } }
+        Ok(m)
+    }
+    fn project(&self) -> Proj { self.iter().map(|(k, v)| (k.clone(), vec![v.clone()])).collect() }
+}
+
+fn proj_json(p: &Proj) -> Value {
+    Value::Array(p.iter().map(|(n, es)| json!({"n": cps(n), "v": es.iter().map(|e| cps(e)).collect::<Vec<_>>()})).collect())
+}
+/// coarse class of the real code's error message (an outcome class for signatures; never used to decide)
+fn errc(e: &str) -> &'static str {
+    for (pat, c) in [("Expected an integer", "expected-integer"), ("Expected a number", "expected-number"), ("Expected `true` or `false`", "expected-bool"),
+                     ("unknown variant", "unknown-variant"), ("missing ,", "missing-comma"), ("invalid type: byte array", "type-bytes"),
+                     ("Expected a single charactor", "single-char"), ("missing `&`", "missing-amp"), ("empty key", "empty-key"), ("missing `=`", "missing-eq"),
+                     ("unexpected end of input", "eof"), ("missing field", "missing-field"), ("duplicate field", "dup-field"), ("Unexpected trailing", "trailing"),
+                     ("Expected to be decoded to an UTF-8", "not-utf8"), ("Expected an empty value", "expected-empty")] {
+        if e.contains(pat) { return c }
+    }
+    if e.is_empty() { "" } else { "other" }
+}
+fn lossy(b: &[u8]) -> String { util::clip(&String::from_utf8_lossy(b), 300) }
+fn tool(msg: impl Into<String>) -> Value { json!({"kind": "tool-error", "msg": msg.into()}) }
+
+macro_rules! dispatch { ($ty:expr, $f:ident ( $($a:expr),* )) => { match $ty {
+    "Ints" => $f::<Ints>($($a),*), "Floats" => $f::<Floats>($($a),*), "Scal" => $f::<Scal>($($a),*), "Str1" => $f::<Str1>($($a),*),
+    "Str2" => $f::<Str2>($($a),*), "Ch" => $f::<Ch>($($a),*), "Opt" => $f::<Opt>($($a),*), "OptEnd" => $f::<OptEnd>($($a),*),
+    "En" => $f::<En>($($a),*), "Nt" => $f::<Nt>($($a),*), "SeqS" => $f::<SeqS>($($a),*), "SeqN" => $f::<SeqN>($($a),*), "Map" => $f::<Map>($($a),*),
+    other => tool(format!("unknown type tag {other}")) } } }
+
+// ------------------------------------------------------------------ mode rt
+fn concretise_tokens(toks: &[Value], cz: &mut Cz) -> Result<String, String> {
+    // one "#symbol" (kept as is), or class tokens
+    if toks.len() == 1 { if let Some(s) = toks[0].as_str() { if s.starts_with('#') { return Ok(s.to_string()) } } }
+    let mut out = String::new();
+    for t in toks { out.push(cz.pick(t.as_str().ok_or("token is not a string")?)?) }
+    Ok(out)
+}
+fn fields_in(scn: &Value, cz: &mut Cz) -> Result<Vec<FieldIn>, String> {
+    let mut out = vec![];
+    for f in util::arr(&scn["val"]) {
+        let key = concretise_tokens(util::arr(&f["key"]), cz)?;
+        let mut elems = vec![];
+        for e in util::arr(&f["v"]) { elems.push(concretise_tokens(util::arr(e), cz)?) }
+        out.push(FieldIn { name: util::s(&f["f"]).to_string(), key, elems });
+    }
+    Ok(out)
+}
+fn rt<T: Cat>(fields: &[FieldIn]) -> Value {
+    let v = match T::build(&In(fields)) {
+        Ok(v) => v,
+        Err(e) if e == "dup" => return json!({"kind": "urlenc", "mode": "rt", "ser": "skip", "text": [], "texts": "", "de": "skip", "err": "duplicate map key after concretisation", "errc": "", "vin": [], "vout": []}),
+        Err(e) => return tool(e),
+    };
+    let vin = proj_json(&v.project());
+    match serde_urlencoded::to_string(&v) {
+        Err(e) => json!({"kind": "urlenc", "mode": "rt", "ser": "err", "text": [], "texts": "", "de": "skip", "err": util::clip(&e.to_string(), 200), "errc": "ser", "vin": vin, "vout": []}),
+        Ok(text) => {
+            let (de, err, vout) = match serde_urlencoded::from_bytes::<T>(text.as_bytes()) {
+                Ok(v2) => ("ok", String::new(), proj_json(&v2.project())),
+                Err(e) => ("err", util::clip(&e.to_string(), 200), json!([])),
+            };
+            json!({"kind": "urlenc", "mode": "rt", "ser": "ok", "text": bytes_json(text.as_bytes()), "texts": lossy(text.as_bytes()), "de": de, "errc": errc(&err), "err": err, "vin": vin, "vout": vout})
+        }
+    }
+}
+
+// ------------------------------------------------------------------ modes dec / iter
+fn wire(toks: &[Value], cz: &mut Cz, out: &mut Vec<u8>) -> Result<(), String> {
+    for t in toks {
+        let (c, e) = (util::s(&t["c"]), util::s(&t["e"]));
+        if c == "sym" { spell(out, &literal(util::s(&t["s"]))?, e) } else { spell(out, &cz.pick(c)?.to_string(), e) }
+    }
+    Ok(())
+}
+pub fn text_of(scn: &Value, cz: &mut Cz) -> Result<Vec<u8>, String> {
+    let mut out = vec![];
+    for (i, p) in util::arr(&scn["pairs"]).iter().enumerate() {
+        if i > 0 { out.push(b'&') }
+        wire(util::arr(&p["k"]), cz, &mut out)?;
+        out.push(b'=');
+        wire(util::arr(&p["v"]), cz, &mut out)?;
+    }
+    Ok(out)
+}
+/// a real Request read from raw bytes whose request line carries `text` as its query
+fn request_with_query(text: &[u8]) -> Result<ohkami::__verif::VRequest, String> {
+    let mut raw = b"GET /q?".to_vec();
+    raw.extend_from_slice(text);
+    raw.extend_from_slice(b" HTTP/1.1\r\nHost: verif\r\n\r\n");
+    if raw.len() > 1000 { return Err("query too long for one request buffer".into()) }
+    let mut req = ohkami::__verif::VRequest::new();
+    let mut rd: &[u8] = &raw;
+    match util::block_on(req.read(&mut rd)) {
+        Ok(Some(())) => Ok(req),
+        Ok(None) => Err("request not read".into()),
+        Err(res) => Err(format!("request rejected with status {}", res.status.code())),
+    }
+}
+fn dec<T: Cat>(text: &[u8], ctx: &str) -> Value {
+    let res: Result<Proj, String> = if ctx == "query" {
+        let req = match request_with_query(text) { Ok(r) => r, Err(e) => return json!({"kind": "urlenc", "mode": "dec", "text": bytes_json(text), "texts": lossy(text), "de": "noreq", "err": e, "errc": "", "vout": []}) };
+        let r = req.get().query.parse::<T>().map(|v| v.project()).map_err(|e| e.to_string());
+        r
+    } else {
+        serde_urlencoded::from_bytes::<T>(text).map(|v| v.project()).map_err(|e| e.to_string())
+    };
+    let (de, err, vout) = match res { Ok(p) => ("ok", String::new(), proj_json(&p)), Err(e) => ("err", util::clip(&e, 200), json!([])) };
+    json!({"kind": "urlenc", "mode": "dec", "text": bytes_json(text), "texts": lossy(text), "de": de, "errc": errc(&err), "err": err, "vout": vout})
+}
+fn iter(text: &[u8]) -> Value {
+    let req = match request_with_query(text) { Ok(r) => r, Err(e) => return json!({"kind": "urlenc", "mode": "iter", "text": bytes_json(text), "texts": lossy(text), "de": "noreq", "err": e, "errc": "", "pairs": []}) };
+    let pairs: Vec<Value> = req.get().query.iter().map(|(k, v)| json!({"k": cps(&k), "v": cps(&v)})).collect();
+    json!({"kind": "urlenc", "mode": "iter", "text": bytes_json(text), "texts": lossy(text), "de": "ok", "err": "", "errc": "", "pairs": pairs})
+}
+
+pub fn run(scn: &Value) -> Value {
+    let mut cz = Cz::new(scn);
+    let ty = util::s(&scn["ty"]);
+    match util::s(&scn["mode"]) {
+        "rt" => {
+            let fields = match fields_in(scn, &mut cz) { Ok(f) => f, Err(e) => return tool(e) };
+            dispatch!(ty, rt(&fields))
+        }
+        "dec" => {
+            let text = match text_of(scn, &mut cz) { Ok(t) => t, Err(e) => return tool(e) };
+            dispatch!(ty, dec(&text, util::s(&scn["ctx"])))
+        }
+        "iter" => {
+            let text = match text_of(scn, &mut cz) { Ok(t) => t, Err(e) => return tool(e) };
+            iter(&text)
+        }
+        m => tool(format!("unknown mode {m}")),
+    }
+}
+
+// ------------------------------------------------------------------ seeded random scenarios (same vocabulary, beyond TLC's bounds)
+const KINDS: &[(&str, &[(&str, &str)])] = &[
+    ("Ints", &[("a", "i8"), ("b", "i16"), ("c", "i32"), ("d", "i64"), ("e", "u8"), ("f", "u16"), ("g", "u32"), ("h", "u64"), ("i", "isize"), ("j", "usize")]),
+    ("Floats", &[("x", "f32"), ("y", "f64")]),
+    ("Scal", &[("b", "bool"), ("s", "str"), ("u_n", "i32")]),
+    ("Str1", &[("s", "str")]),
+    ("Str2", &[("s", "str"), ("t", "str")]),
+    ("Ch", &[("c", "char"), ("z", "u8")]),
+    ("Opt", &[("o", "optstr"), ("p", "optu32"), ("z", "u8")]),
+    ("OptEnd", &[("z", "u8"), ("o", "optstr")]),
+    ("En", &[("e", "enum"), ("s", "str")]),
+    ("Nt", &[("id", "ntu32"), ("name", "ntstr")]),
+    ("SeqS", &[("v", "vecstr"), ("z", "u8")]),
+    ("SeqN", &[("w", "vecu32")]),
+];
+fn rnd_int(rng: &mut Rng, kind: &str) -> String {
+    let k = match kind { "ntu32" | "optu32" | "vecu32" => "u32", k => k };
+    if rng.chance(1, 3) { return (*rng.pick(&["0", "1", "min", "max"])).to_string() }
+    let r = rng.next();
+    format!("={}", match k {
+        "i8" => (r as i8).to_string(), "i16" => (r as i16).to_string(), "i32" => (r as i32).to_string(), "i64" | "isize" => (r as i64).to_string(),
+        "u8" => (r as u8).to_string(), "u16" => (r as u16).to_string(), "u32" => (r as u32).to_string(), _ => r.to_string() })
+}
+fn rnd_float(rng: &mut Rng, kind: &str) -> String {
+    if rng.chance(1, 3) { return (*rng.pick(&["0", "-0", "1.5", "-2.5e-3", "max", "minpos", "nan", "inf", "-inf"])).to_string() }
+    let bits = rng.next();
+    if kind == "f32" { let x = f32::from_bits(bits as u32); if x.is_nan() { "nan".into() } else { format!("={}", x) } }
+    else { let x = f64::from_bits(bits); if x.is_nan() { "nan".into() } else { format!("={}", x) } }
+}
+fn rnd_sym(rng: &mut Rng, kind: &str) -> String {
+    match kind {
+        "bool" => (*rng.pick(&["true", "false"])).to_string(),
+        "enum" => (*rng.pick(&["A", "Bee", "dark_red"])).to_string(),
+        "f32" | "f64" => rnd_float(rng, kind),
+        _ => rnd_int(rng, kind),
+    }
+}
+fn rnd_class(rng: &mut Rng) -> &'static str { if rng.chance(1, 3) { "al" } else { CLASSES[rng.below(CLASSES.len())] } }
+fn rnd_toks(rng: &mut Rng, max: usize) -> Vec<Value> { (0..rng.below(max + 1)).map(|_| json!(rnd_class(rng))).collect() }
+fn raw_ok(c: &str, ctx: &str) -> bool { !matches!(c, "amp" | "eq" | "pct") && (ctx != "query" || matches!(c, "al" | "plus" | "comma" | "slash" | "unres" | "res")) }
+fn rnd_wire(rng: &mut Rng, ctx: &str, min: usize, max: usize) -> Vec<Value> {
+    (0..rng.range(min, max)).map(|_| { let c = rnd_class(rng); let e = if raw_ok(c, ctx) && rng.chance(1, 2) { "r" } else if rng.chance(1, 2) { "U" } else { "L" }; json!({"c": c, "e": e, "s": ""}) }).collect()
+}
+fn sym_kind<'a>(kind: &'a str) -> &'a str { match kind { "ntu32" | "optu32" => "u32", k => k } }
+pub fn gen(rng: &mut Rng, _i: usize) -> Value {
+    match rng.below(10) {
+        0..=3 => { // round trip
+            if rng.chance(1, 8) {
+                let n = rng.below(5);
+                let val: Vec<Value> = (0..n).map(|_| json!({"f": "", "k": "entry", "key": rnd_toks(rng, 6), "v": [rnd_toks(rng, 6)]})).collect();
+                return json!({"mode": "rt", "ty": "Map", "val": val});
+            }
+            let (ty, fs) = KINDS[rng.below(KINDS.len())];
+            let val: Vec<Value> = fs.iter().map(|(f, k)| {
+                let v: Vec<Value> = match *k {
+                    "str" | "ntstr" => vec![json!(rnd_toks(rng, 10))],
+                    "char" => vec![json!([rnd_class(rng)])],
+                    "optstr" => if rng.chance(1, 3) { vec![] } else { vec![json!(rnd_toks(rng, 6))] },
+                    "optu32" => if rng.chance(1, 3) { vec![] } else { vec![json!([format!("#{}", rnd_int(rng, k))])] },
+                    "vecstr" => (0..rng.below(5)).map(|_| json!(rnd_toks(rng, 4))).collect(),
+                    "vecu32" => (0..rng.below(5)).map(|_| json!([format!("#{}", rnd_int(rng, k))])).collect(),
+                    k => vec![json!([format!("#{}", rnd_sym(rng, k))])],
+                };
+                json!({"f": f, "k": k, "key": [], "v": v})
+            }).collect();
+            json!({"mode": "rt", "ty": ty, "val": val})
+        }
+        4..=7 => { // decode into a typed target: permuted fields, random spellings, unknown extra pairs
+            let ctx = if rng.chance(1, 2) { "body" } else { "query" };
+            if rng.chance(1, 8) {
+                let n = rng.range(1, 4);
+                let pairs: Vec<Value> = (0..n).map(|_| json!({"k": rnd_wire(rng, ctx, 1, 5), "v": rnd_wire(rng, ctx, 0, 6)})).collect();
+                return json!({"mode": "dec", "ctx": ctx, "ty": "Map", "pairs": pairs});
+            }
+            let (ty, fs) = KINDS[rng.below(10)];
+            let mut pairs: Vec<Value> = vec![];
+            for (f, k) in fs.iter() {
+                if k.starts_with("opt") && rng.chance(1, 3) { continue }
+                let ke = *rng.pick(&["r", "r", "U", "L", "M"]);
+                let v: Vec<Value> = match *k {
+                    "str" | "ntstr" | "optstr" => rnd_wire(rng, ctx, 0, 8),
+                    "char" => rnd_wire(rng, ctx, 1, 1),
+                    k => vec![json!({"c": "sym", "e": *rng.pick(&["r", "r", "U", "L", "M"]), "s": format!("{}:{}", sym_kind(k), rnd_sym(rng, k))})],
+                };
+                pairs.push(json!({"k": [{"c": "sym", "e": ke, "s": format!("name:{f}")}], "v": v}));
+            }
+            for j in (1..pairs.len()).rev() { let k = rng.below(j + 1); pairs.swap(j, k) }
+            for _ in 0..rng.below(3) {
+                let at = rng.below(pairs.len() + 1);
+                let name = *rng.pick(&["zz", "q9", "k0", "extra_1"]);
+                pairs.insert(at, json!({"k": [{"c": "sym", "e": *rng.pick(&["r", "U"]), "s": format!("name:{name}")}], "v": rnd_wire(rng, ctx, 0, 5)}));
+            }
+            json!({"mode": "dec", "ctx": ctx, "ty": ty, "pairs": pairs})
+        }
+        _ => { // query iterator
+            let n = rng.range(1, 6);
+            let pairs: Vec<Value> = (0..n).map(|_| json!({"k": rnd_wire(rng, "query", 1, 5), "v": rnd_wire(rng, "query", 0, 8)})).collect();
+            json!({"mode": "iter", "ctx": "query", "ty": "Iter", "pairs": pairs})
+        }
+    }
+}
